@@ -7,6 +7,7 @@ CONSTANTS
   MaxCrashes = 1000000000
   OpKinds = {"PutODSQ4", "PutODS", "RemoveODSQ4", "RemoveQ4"}
   ValidateQ4OnOpen = TRUE
+  Prealloc = FALSE
   EmitCases = FALSE
 INVARIANTS LinkedIsComplete NoPartialServed LookupRight PutNeverFails RePutWorks RemoveRemoves DirsFirst
 POSTCONDITION Accepted
